@@ -102,54 +102,133 @@ def run(ck):
 
 
 def byte_order_rules(ck, m, RID):
-    """Writer/reader byte-order agreement of the per-base byte map (shared by C13-R2 and C12-R5)."""
+    """Writer/reader byte-order agreement of the per-base byte map (shared by C13-R2 and C12-R5).  Every comparison is made on
+    normal forms (sa/normal: single-definition locals expanded, polynomial index arithmetic, commutative operators sorted) and, for
+    the reader's per-byte step, on the path summaries of the loop body (sa/symval), so that temporaries, hoisted sub-expressions,
+    if/else vs continue, `in` + index vs .get() are the same code."""
+    from sa.astutil import Resolver, straightline_env
+    from sa.normal import canon, poly
+    from sa import symval
     w = m.func("MemArray.write")
-    loops = [n for n in walk_body(w) if isinstance(n, ast.For) and "expr.size // 8" in norm(n.iter)]
-    ck.need(loops, "MemArray.write: byte loop not found")
-    idx = norm(loops[0].target)
-    ok = any(isinstance(n, ast.Assign) and norm(n.targets[0]).startswith("self._offset_to_expr[") and norm(n.value) == "(%s, expr)" % idx
-             for n in walk_local(loops[0]))
-    ck.ob(RID, "MemArray.write:stored-index", ok, m.where(w), "byte %s of the value must be stored as (%s, expr)" % (idx, idx))
-    ok = any(isinstance(n, ast.Assign) and norm(n.targets[0]) == "request_offset" and
-             norm(n.value).replace(" ", "").replace("(", "").replace(")", "") == "offset+%s&self._mask" % idx for n in walk_local(loops[0]))
-    ck.ob(RID, "MemArray.write:address", ok, m.where(w), "byte %s must be stored at (offset + %s) & mask" % (idx, idx))
+    wres = Resolver(w)
+    wp = [a.arg for a in w.args.args]
+    ck.need(len(wp) == 3, "MemArray.write(self, offset, expr): signature changed")
+    off_p, val_p = wp[1], wp[2]
+    nbytes = "range(P[%s])" % "1*" + "FloorDiv(%s.size, P[8])" % val_p
+    loops = []
+    for n in walk_body(w):
+        if isinstance(n, ast.For):
+            it = wres.expand_node(n.iter)
+            if isinstance(it, ast.Call) and dotted(it.func) == "range" and len(it.args) == 1 and canon(it.args[0]) in ("FloorDiv(%s.size, P[8])" % val_p,):
+                loops.append(n)
+    ck.need(loops, "MemArray.write: byte loop over range(%s.size // 8) not found" % val_p)
+    loop = loops[0]
+    idx = norm(loop.target)
+    stores = [n for n in walk_local(loop) if isinstance(n, ast.Assign) and isinstance(n.targets[0], ast.Subscript) and norm(n.targets[0].value) == "self._offset_to_expr"]
+    env = straightline_env(loop.body)
+
+    def in_loop(e):
+        class _T(ast.NodeTransformer):
+            def visit_Name(self, nm):
+                if isinstance(nm.ctx, ast.Load) and nm.id in env:
+                    return env[nm.id]
+                return nm
+        from sa.astutil import clone
+        return _T().visit(clone(e))
+    ok_v = bool(stores) and all(canon(in_loop(st.value)) == "(%s, %s)" % (idx, val_p) for st in stores)
+    ck.ob(RID, "MemArray.write:stored-index", ok_v, m.where(w), "byte %s of the value must be stored as (%s, %s)" % (idx, idx, val_p))
+    want_k = canon(ast.parse("(%s + %s) & self._mask" % (off_p, idx), mode="eval").body)
+    ok_k = bool(stores) and all(canon(in_loop(st.targets[0].slice)) == want_k for st in stores)
+    ck.ob(RID, "MemArray.write:address", ok_k, m.where(w), "byte %s must be stored at (%s + %s) & mask; found key `%s`"
+          % (idx, off_p, idx, norm(in_loop(stores[0].targets[0].slice))[:60] if stores else "none"))
+    # ---- reader
     r = m.func("MemArray.read")
-    ok = any(isinstance(n, ast.Assign) and isinstance(n.targets[0], ast.Tuple) and [norm(e) for e in n.targets[0].elts] == ["off", "data"]
-             and norm(n.value) == "self._offset_to_expr[request_offset]" for n in walk_body(r)) and \
-        any(isinstance(c, ast.Call) and dotted(c.func) == "parts.append" and norm(c.args[0]) == "(off, 1, data)" for c in walk_body(r))
-    ck.ob(RID, "MemArray.read:part", ok, m.where(r), "a known byte must be read back as (stored index, 1, stored value)")
-    ok = any(isinstance(n, ast.Assign) and norm(n.targets[0]) == "data" and norm(n.value).replace(" ", "") == "data[off*8:(off+bytesize)*8]" for n in walk_body(r))
-    ck.ob(RID, "MemArray.read:slice", ok, m.where(r), "a part must be extracted as value[off*8:(off+n)*8] (little endian)")
-    ok = any(isinstance(c, ast.Call) and callee_attr(c) == "ExprInt" and c.args and
-             norm(c.args[0]).replace(" ", "") == "int2<<size_a*8|int1" and norm(c.args[1]).replace(" ", "") == "(size_a+size_b)*8" for c in walk_body(r))
-    ck.ob(RID, "MemArray.read:int-merge", ok, m.where(r), "adjacent integer parts must merge as (second << 8*size_first) | first")
-    # the low part of the merge is exactly the bytes it covers: bits above 8*size_first would be or-ed into the second part
-    # (the second part may keep high bits: ExprInt drops what exceeds the merged width)
-    from sa.astutil import straightline_env
+    rp = [a.arg for a in r.args.args]
+    roff, rsize = rp[1], rp[2]
+    rres = Resolver(r)
+    rloops = []
+    for n in walk_body(r):
+        if isinstance(n, ast.For):
+            it = rres.expand_node(n.iter)
+            if isinstance(it, ast.Call) and dotted(it.func) == "range" and len(it.args) == 1 and canon(it.args[0]) == "FloorDiv(%s, P[8])" % rsize:
+                rloops.append(n)
+    ck.need(rloops, "MemArray.read: byte loop over range(%s // 8) not found" % rsize)
+    rl = rloops[0]
+    ridx = norm(rl.target)
+    want_rk = canon(ast.parse("(%s + %s) & self._mask" % (roff, ridx), mode="eval").body)
+    known_ok = unknown_ok = False
+    n_paths = 0
+    for pth in symval.paths(rl.body, limit=16):
+        n_paths += 1
+        apps = [e for e in pth.effects if isinstance(e, ast.Call) and isinstance(e.func, ast.Attribute) and e.func.attr == "append" and e.args and isinstance(e.args[0], ast.Tuple)
+                and len(e.args[0].elts) == 3]
+        for a in apps:
+            t0, t1, t2 = a.args[0].elts
+            c0, c2 = canon(t0), canon(t2)
+            # known byte: (entry[0], 1, entry[1]) with entry = table[(offset + index) & mask] (subscript or .get)
+            if norm(t1) == "1" and "self._offset_to_expr" in c0 and "self._offset_to_expr" in c2:
+                e0 = c0.replace("[P[0]]", "").replace(", None)", ")")
+                e2 = c2.replace("[P[1]]", "").replace(", None)", ")")
+                if e0 == e2 and c0 != c2 and want_rk in e0 and c0.endswith("[P[0]]") and c2.endswith("[P[1]]"):
+                    known_ok = True
+            # unknown byte: (0, 1, ExprMem(<ptr of that offset>, 8))
+            if norm(t1) == "1" and norm(t0) == "0" and isinstance(t2, ast.Call) and (dotted(t2.func) or "").split(".")[-1] == "ExprMem" and len(t2.args) == 2 \
+                    and norm(t2.args[1]) == "8" and want_rk in canon(t2.args[0]):
+                unknown_ok = True
+    ck.ob(RID, "MemArray.read:part", known_ok, m.where(r),
+          "a stored byte must be read back as (stored index, 1, stored value) of the entry at (%s + %s) & mask" % (roff, ridx))
+    ck.ob(RID, "MemArray.read:unknown-part", unknown_ok, m.where(r),
+          "a byte that was never written must read as the 8-bit memory cell at base + ((%s + %s) & mask)" % (roff, ridx))
+    # final extraction of each part: value[8*off : 8*(off + n)] (little endian)
     ok = False
+    for n in walk_body(r):
+        if isinstance(n, ast.For) and isinstance(n.target, ast.Tuple) and len(n.target.elts) == 3:
+            o_, n_, d_ = [norm(x) for x in n.target.elts]
+            want = canon(ast.parse("%s[%s * 8:(%s + %s) * 8]" % (d_, o_, o_, n_), mode="eval").body)
+            env2 = {}
+            for x in walk_local(ast.Module(body=n.body, type_ignores=[])):
+                if isinstance(x, ast.Assign) and isinstance(x.value, ast.Subscript) and isinstance(x.value.slice, ast.Slice) and canon(x.value) == want:
+                    ok = True
+    ck.ob(RID, "MemArray.read:slice", ok, m.where(r), "a part must be extracted as value[off*8:(off+n)*8] (little endian)")
+    # merge of two adjacent integer parts
+    ok = False
+    okb = False
     detail = "integer merge branch not found"
     for n in walk_body(r):
-        if isinstance(n, ast.If) and "data_a.is_int()" in norm(n.test) and "data_b.is_int()" in norm(n.test):
-            env = straightline_env(n.body)
-            merged = [c for c in walk_local(ast.Module(body=n.body, type_ignores=[])) if isinstance(c, ast.Call) and callee_attr(c) == "ExprInt"]
-            if not merged or not isinstance(merged[0].args[0], ast.BinOp) or not isinstance(merged[0].args[0].op, ast.BitOr):
-                continue
-            bor = merged[0].args[0]
-            low = bor.right if isinstance(bor.left, ast.BinOp) and isinstance(bor.left.op, ast.LShift) else bor.left
-            lowx = env.get(low.id) if isinstance(low, ast.Name) else low
-            t = norm(lowx).replace(" ", "") if lowx is not None else "?"
-            for wrap_ in ("self.expr_simp(", "int(", "expr_simp("):
-                t = t.replace(wrap_, "(")
-            while "((" in t or "))" in t:
-                t = t.replace("((", "(").replace("))", ")")
-            bounded = "data_a[off_a*8:(off_a+size_a)*8]" in t or \
-                ("data_a)>>off_a*8" in t.replace("(off_a*8)", "off_a*8") and ("&(1<<size_a*8)-1" in t or "%(1<<size_a*8)" in t))
-            ok = bounded
-            detail = "the first (low-address) integer part is taken as `%s`: it is not limited to its %s bytes" % (norm(lowx)[:70], "size_a")
-    ck.ob(RID, "MemArray.read:int-merge-low-part-bounded", ok, m.where(r), detail)
+        if isinstance(n, ast.If) and "is_int()" in norm(n.test) and norm(n.test).count("is_int()") >= 2:
+            env3 = straightline_env(n.body)
+            merged = [c for c in walk_local(ast.Module(body=n.body, type_ignores=[])) if isinstance(c, ast.Call) and callee_attr(c) == "ExprInt" and len(c.args) >= 2]
+            for c in merged:
+                v = c.args[0]
+
+                class _T3(ast.NodeTransformer):
+                    def visit_Name(self, nm):
+                        if isinstance(nm.ctx, ast.Load) and nm.id in env3:
+                            return env3[nm.id]
+                        return nm
+                from sa.astutil import clone
+                vx = _T3().visit(clone(v))
+                if not (isinstance(vx, ast.BinOp) and isinstance(vx.op, ast.BitOr)):
+                    continue
+                hi = vx.left if isinstance(vx.left, ast.BinOp) and isinstance(vx.left.op, ast.LShift) else vx.right
+                lo = vx.right if hi is vx.left else vx.left
+                if not (isinstance(hi, ast.BinOp) and isinstance(hi.op, ast.LShift)):
+                    continue
+                ok = poly(hi.right) == poly(ast.parse("size_a * 8", mode="eval").body) and "data_b" in norm(hi.left) and "data_a" in norm(lo) and \
+                    poly(_T3().visit(clone(c.args[1]))) == poly(ast.parse("(size_a + size_b) * 8", mode="eval").body)
+                t = canon(lo)
+                okb = "data_a[P[8*off_a]:P[8*off_a + 8*size_a]]" in t or ("RShift" in t and ("BitAnd" in t or "Mod" in t))
+                detail = "the first (low-address) integer part is taken as `%s`: it is not limited to its size_a bytes" % norm(lo)[:70]
+    ck.ob(RID, "MemArray.read:int-merge", ok, m.where(r), "adjacent integer parts must merge as (second << 8*size_first) | first, on 8*(size_first+size_second) bits")
+    ck.ob(RID, "MemArray.read:int-merge-low-part-bounded", okb, m.where(r), detail)
     sr = m.func("MemSparse.read")
-    ok = any(isinstance(n, ast.Assign) and norm(n.targets[0]) == "ret" and "ExprCompose(*mems)" in norm(n.value) for n in walk_body(sr)) and \
-        any(isinstance(n, ast.Assign) and norm(n.targets[0]) == "mems" and norm(n.value) == "memarray.read(offset, size)" for n in walk_body(sr))
+    sres = Resolver(sr)
+    ok = False
+    for n in walk_body(sr):
+        if isinstance(n, ast.Call) and (dotted(n.func) or "").split(".")[-1] == "ExprCompose" and n.args and isinstance(n.args[0], ast.Starred):
+            src = sres.expand_node(n.args[0].value)
+            if isinstance(src, ast.Call) and isinstance(src.func, ast.Attribute) and src.func.attr == "read" and len(src.args) == 2:
+                ok = True
     ck.ob(RID, "MemSparse.read:compose-order", ok, m.where(sr), "parts must be composed in address order (lowest address = lowest bits)")
 
 
